@@ -100,6 +100,7 @@ inductive Err where
   | unsupported          -- outside the modelled domain (leaf/dict clash in the tree, see header)
   | badSlot              -- ill-formed program: reference to a local / child that does not exist
   | fuel                 -- evaluator ran out of fuel (never with the fuel the drivers pass)
+  | invalidScope         -- `errors.InvalidScopeError`: the scope object was invalidated by `Scope.temporary`
   deriving DecidableEq, Repr, Inhabited
 
 instance {ε α : Type} [DecidableEq ε] [DecidableEq α] : DecidableEq (Except ε α)
@@ -269,5 +270,85 @@ def apply (fn : Op Int) (m : LFilter) (V : Vars) (rngs : List String) : Outcome 
 
 /-- `core.init(fn, mutable)(rngs)` = `apply` on the empty variable dict -/
 def init (fn : Op Int) (m : LFilter) (rngs : List String) : Outcome := apply fn m Vars.empty rngs
+
+
+/-! ### scope objects that outlive the call (`Scope.temporary`, `invalidate`, `_check_valid`)
+
+`core.apply` runs `fn` inside `bind(...).temporary()`, which on exit sets `_invalid = True` **on the root
+scope object only**.  `_check_valid` is called by `put_variable`, `push`, `rewound` and `make_rng`; the read
+paths (`get_variable`, `has_variable`, the reuse branch of `param`/`variable`) are not guarded.  A child
+`Scope` object (`push`, `rewound`) has its own `_invalid` flag, which nothing sets: a leaked child scope keeps
+working on the temporary tree — which is also the tree `mutable_variables()` handed back — but, like every
+operation, only inside collections the scope owns (see `Flax.C01.leaked_scope_cannot_touch_inputs`). -/
+
+/-- a `Scope` object as user code may still hold it after the call: where it points, and its own `_invalid` -/
+structure Handle where
+  path : Path
+  invalid : Bool
+  deriving DecidableEq, Repr, Inhabited
+
+/-- the root scope after `temporary()` exited -/
+def Handle.leakedRoot : Handle := ⟨[], true⟩
+
+/-- a scope obtained by `push`/`rewound` during the call -/
+def Handle.leakedChild (π : Path) : Handle := ⟨π, false⟩
+
+/-- `_check_valid()` in front of an operation -/
+def checked {α : Type} (h : Handle) (op : Op α) : Op α := fun s =>
+  if h.invalid then (.error .invalidScope, s) else op s
+
+/-- operations user code can try on a leaked scope object (each with fresh reservations `r`) -/
+inductive LeakOp where
+  | put (col n : String) (v : Val)                      -- `scope.put_variable`
+  | get (col n : String)                                -- `scope.get_variable`
+  | var (col n : String) (iv : Val)                     -- `scope.variable(col, n, init_fn)`
+  | param (n : String) (shape : List Nat) (init : Int)  -- `scope.param`
+  | push (name : String)                                -- `scope.push(name)`
+  | rewound                                             -- `scope.rewound()`
+  deriving Repr, Inhabited
+
+/-- `Scope.put_variable` through a handle -/
+def hPut (h : Handle) (col n : String) (v : Val) : Op Unit := checked h (putVar h.path col n v)
+
+/-- what the operation does: the guarded steps are exactly the ones that call `_check_valid`.
+`variable`/`param` reserve and look up first and only reach `put_variable` (hence the check) when they
+have to create the variable. -/
+def leakedOp (h : Handle) (r : Res) : LeakOp → Op Unit
+  | .put col n v => hPut h col n v
+  | .get _ _ => fun s => (.ok (), s)
+  | .var col n iv => fun s =>
+      match reserve r n (some col) with
+      | .error e => (.error e, s)
+      | .ok _ =>
+        if hasVar s h.path col n then (.ok (), s)
+        else if !(isMutable s col) then
+          (if colEmpty s col then (.error .collectionNotFound, s) else (.error .variableNotFound, s))
+        else hPut h col n iv s
+  | .param n shape init => fun s =>
+      match reserve r n (some "params") with
+      | .error e => (.error e, s)
+      | .ok _ =>
+        match getVar s h.path "params" n with
+        | some v =>
+          (match v.leafShapes with
+           | [] => (.ok (), s)
+           | sh :: _ => if sh = shape then (.ok (), s) else (.error .paramShape, s))
+        | none =>
+          if !(isMutable s "params") then
+            (if colEmpty s "params" then (.error .collectionNotFound, s) else (.error .paramNotFound, s))
+          else if !(decide ("params" ∈ s.rngs)) then (.error .noRng, s)
+          else
+            -- `make_rng` checks validity before it draws, then `put_variable` stores the value
+            checked h (fun s' => putVar h.path "params" n (Val.full shape init) { s' with inits := s'.inits + 1 }) s
+  | .push name => checked h (fun s =>
+      match reserve r name none with
+      | .error e => (.error e, s)
+      | .ok _ => (.ok (), s))
+  | .rewound => checked h (fun s => (.ok (), s))
+
+/-- a whole sequence of attempts, errors included: the store after all of them -/
+def leakedOps (h : Handle) (r : Res) : List LeakOp → Store → Store
+  | [], s => s
+  | op :: rest, s => leakedOps h r rest (leakedOp h r op s).2
 
 end Flax.Scope
